@@ -795,6 +795,15 @@ def rule_round5(repo, rep):
         raise AnalysisError(f"quantisation aliases: only {n_al} found")
     rep.check(True, "C11-i", "ethosu/vela", f"{n_al} local aliases of quantisation records are read only", "")
     rep.floor("C11-i", 4)
+    rep.clause("C11-q", "every option member the serialiser produced is added to the table unconditionally (an omitted field reads back as the schema default, not as the falsy value)")
+    rule_serialise_all_members(repo, rep)
+    rep.clause("C11-p", "a tensor's shape list and constant values are edited only through a copy: no in-place mutation of `<tensor>.shape` / `<tensor>.values` or of a bare alias of them in the rewrites and checks")
+    from .shared import owned_member_mutation_lint
+
+    n_own, _ = owned_member_mutation_lint(repo, rep, "C11-p", ["tflite_graph_optimiser", "graph_optimiser_util", "tflite_model_semantic", "tflite_supported_operators", "softmax", "lstm", "operation", "tensor",
+                                                              "tflite_reader", "tflite_writer", "extract_npu_subgraphs", "pass_packing"])
+    if n_own < 20:
+        raise AnalysisError(f"bare aliases of tensor shape / values: {n_own} found")
 
 
 def rule_no_tensor_rename(repo, rep):
@@ -1029,3 +1038,22 @@ def rule_folded_constant_dtype(repo, rep):
     if n < 3:
         raise AnalysisError(f"folded constant stores: {n} found")
     rep.floor("C11-o", 3)
+
+
+def rule_serialise_all_members(repo, rep):
+    """(q) OptionsSerializer.serialize adds every member it serialised to the option table. A flatbuffer field that is not added reads
+    back as the *schema* default, which is not always the falsy value (AddOptions / SubOptions.pot_scale_int16 and
+    BidirectionalSequenceLSTMOptions.time_major default to true): dropping falsy values turns an explicit false into true."""
+    m = repo.mod("tflite_mapping")
+    f = m.func("OptionsSerializer.serialize")
+    site = "ethosu/vela/tflite_mapping.py:OptionsSerializer.serialize"
+    loops = [l for l in ast.walk(f) if isinstance(l, ast.For) and any('"Add"' in str(norm(c)) or "'Add'" in str(norm(c)) for c in ast.walk(l) if isinstance(c, ast.Call))]
+    if len(loops) != 1:
+        raise AnalysisError(f"OptionsSerializer.serialize: {len(loops)} loops add members")
+    lp = loops[0]
+    direct = [st for st in lp.body if isinstance(st, ast.Expr) and isinstance(st.value, ast.Call) and "Add" in str(norm(st.value))]
+    conditional = [st for st in lp.body if isinstance(st, (ast.If, ast.Try, ast.While)) and any("Add" in str(norm(c)) for c in ast.walk(st) if isinstance(c, ast.Call))]
+    skips = [st for st in ast.walk(lp) if isinstance(st, ast.Continue)]
+    rep.check(bool(direct) and not conditional and not skips, "C11-q", site, "every serialised member is added to the option table, whatever its value",
+              f"the Add<Member> call is conditional (`{str(norm(conditional[0].test))[:40] if conditional and isinstance(conditional[0], ast.If) else 'continue'}`): a member left out reads back as the schema default - "
+              "pot_scale_int16 = false of a CPU-resident ADD / SUB is written as true")
